@@ -299,6 +299,39 @@ def candidate_mutations(rng, schema, odd=False, stacked=False):
     if cands and len(schema["tables"]) > 1:
         x = rng.choice(cands)
         out.append(({"m": "dropTable", "t": x}, mutated(lambda s: s["tables"].remove(tbl(s, x)))))
+    # "table removed" for a table that remaining tables still reference in the database: the model drops the table
+    # together with the foreign keys pointing to it (variant: and the referencing columns, when nothing else uses them)
+    refd2 = sorted({f["reftable"] for u in schema["tables"] for f in u["fks"] if f["reftable"] != u["name"]})
+    if refd2:
+        x2 = rng.choice(refd2)
+
+        def only_fk_use(t, f):
+            """the key's columns are used by nothing but foreign keys pointing to x2 (and are no primary key columns)"""
+            for cn in f["cols"]:
+                c = next(c for c in t["cols"] if c["name"] == cn)
+                if c.get("pk") or c.get("uflag"):
+                    return False
+                others = [o for k in ("ixs", "uqs") for o in t[k]] + [g for g in t["fks"] if g["reftable"] != x2] + t.get("uuqs", []) \
+                    + [{"cols": [fx["col"]]} for fx in t.get("fixs", [])] + [{"cols": [c2["computed"]["ref"]]} for c2 in t["cols"] if c2.get("computed")]
+                if any(cn in o["cols"] for o in others):
+                    return False
+                if any(cn in g["refcols"] for u in schema["tables"] for g in u["fks"] if g["reftable"] == t["name"]):
+                    return False
+            return True
+
+        refs = [(u, f) for u in schema["tables"] if u["name"] != x2 for f in u["fks"] if f["reftable"] == x2]
+        drop_cols = rng.random() < 0.5 and all(only_fk_use(u, f) for u, f in refs) and \
+            all(len(u["cols"]) > len({c for g in u["fks"] if g["reftable"] == x2 for c in g["cols"]}) for u, _ in refs)
+
+        def drop_refd(s, x2=x2, drop_cols=drop_cols):
+            s["tables"] = [t for t in s["tables"] if t["name"] != x2]
+            for t in s["tables"]:
+                gone = {c for g in t["fks"] if g["reftable"] == x2 for c in g["cols"]}
+                t["fks"] = [g for g in t["fks"] if g["reftable"] != x2]
+                if drop_cols:
+                    t["cols"] = [c for c in t["cols"] if c["name"] not in gone]
+
+        out.append(({"m": "dropTableRefs", "t": x2, "dropCols": drop_cols}, mutated(drop_refd)))
     t0 = rng.choice(schema["tables"])
     tn = t0["name"]
     cn_used = {c["name"] for c in t0["cols"]}
@@ -525,7 +558,7 @@ def gen_pair(rng, odd=False, max_tables=5, max_cols=6, funcs=False, computed=Fal
         return a, b
     b = copy.deepcopy(a)
     for _ in range(rng.choice([0, 1, 1, 2, 2, 3, 4, 6])):
-        cands = candidate_mutations(rng, b, odd)
+        cands = [x for x in candidate_mutations(rng, b, odd) if x[0]["m"] != "dropTableRefs"]   # (outside C06's pair class)
         d, nb = rng.choice(cands)
         if wf_pair_step(b, nb):
             b = nb
